@@ -37,7 +37,8 @@ use crate::utils;
 
 /// A classical, flexible, q-gram index implementation.
 ///
-/// Uses |alphabet|^q + k words of memory, where k is the number of q-grams in the text with count at most `max_count` (if specified).
+/// Uses 2^(q * ceil(log2(|alphabet|))) + k words of memory (i.e. |alphabet|^q + k if the alphabet size is a
+/// power of two), where k is the number of q-grams in the text with count at most `max_count` (if specified).
 #[derive(Default, Clone, Eq, PartialEq, Ord, PartialOrd, Hash, Debug, Serialize, Deserialize)]
 pub struct QGramIndex {
     q: u32,
@@ -71,7 +72,12 @@ impl QGramIndex {
         let text = text.into_iter();
         let ranks = RankTransform::new(alphabet);
 
-        let qgram_count = alphabet.len().pow(q);
+        // q-grams are encoded with `ranks.get_width()` bits per symbol (see
+        // `RankTransform::qgrams`), so the tables have to cover that code space, which is
+        // larger than |alphabet|^q unless the alphabet size is a power of two.
+        let qgram_count = 1usize
+            .checked_shl(q * ranks.get_width() as u32)
+            .expect("Expecting q to be smaller than usize / log2(|A|)");
         let mut address = vec![0; qgram_count + 1];
 
         for qgram in ranks.qgrams(q, text.clone()) {
